@@ -9,6 +9,8 @@
    translator harness/effects.py and is part of the trusted base. *)
 From Coq Require Import List String.
 From Psec Require Import Proofs.Interleave Proofs.EffectPolicy Gen.Effects.
+Import ListNotations.
+Open Scope string_scope.
 
 Theorem C18_pure_calls_do_not_interfere :
   forall (store pstate result : Type) (procs : list (proc store pstate result)) (sched : list nat) (st0 : store),
@@ -27,18 +29,31 @@ Theorem C18_current_tree : tree_ok effects = true.
 Proof. vm_compute. reflexivity. Qed.
 Print Assumptions C18_current_tree.
 
-(* what the policy means for a function that is not a declared mutator *)
+(* what the policy means for a function that is neither a declared nor a derived mutator *)
 Theorem C18_policy_meaning : forall fs f e,
-  policy_ok fs = true -> In f fs -> In e (fn_effects f) -> str_in (fn_name f) mutators = false ->
+  policy_ok fs = true -> In f fs -> In e (fn_effects f) -> str_in (fn_name f) (all_mutators fs) = false ->
   match e with
   | EWrite OSelf | EWrite (OParam _) | EWrite (OModule _) | EWrite (OUnknown _) => False
   | ECallMethod OSelf m | ECallMethod (OParam _) m | ECallMethod (OModule _) m =>
-      str_in m mutating_methods = false
+      str_in m (all_mutating_methods fs) = false
   | ECallMethod (OUnknown _) _ | ECallUnknown _ | EDeclGlobal _ => False
   | _ => True
   end.
 Proof. exact policy_non_mutator. Qed.
 Print Assumptions C18_policy_meaning.
+
+(* on the current tree none of the functions of the deterministic API is a (declared or derived) mutator *)
+Theorem C18_api_is_not_mutator :
+  forallb (fun n => negb (str_in n (all_mutators effects)))
+    [ "tools.xor"; "tools.odd_parity"; "des.apply_key_variant"; "des.adjust_key_parity"; "des.generate_kcv";
+      "des.encrypt_tdes_cbc"; "des.decrypt_tdes_cbc"; "aes.encrypt_aes_cbc"; "aes.decrypt_aes_cbc";
+      "mac.generate_cbc_mac"; "mac.generate_retail_mac"; "mac.pad_iso_1"; "mac.pad_iso_2"; "mac.pad_iso_3";
+      "cvv.generate_cvv"; "pin.generate_ibm3624_pin"; "pin.generate_ibm3624_offset"; "pin.generate_visa_pvv";
+      "pinblock.encode_pinblock_iso_0"; "pinblock.decode_pinblock_iso_0"; "pinblock.decode_pinblock_iso_3";
+      "pinblock.decipher_pinblock_iso_4"; "tr31.unwrap"; "tr31.wrap"; "tr31.KeyBlock.wrap"; "tr31.Header.dump";
+      "tr31.Header.__str__"; "tr31.Blocks.dump" ] = true.
+Proof. vm_compute. reflexivity. Qed.
+Print Assumptions C18_api_is_not_mutator.
 
 (* the serialisation path of TR-31 is not among the mutators *)
 Example C18_wrap_is_not_a_mutator :
